@@ -1,6 +1,9 @@
 CONSTANTS
   Dev = {}
   MaxRecs = 5
+  MaxEdits = 1
+  EditRecs = 3
+  EditAnywhere = TRUE
   Mutant = FALSE
 SPECIFICATION Spec
 INVARIANT InputCanonical
